@@ -216,10 +216,12 @@ theorem classifyLoop_minmax (loc : List Str) : ∀ (addrs : List Str) (st st' : 
       · cases e
       · next pn _ =>
         split at e
-        · exact ih _ _ (by simp) e
-        · refine ih _ _ ?_ e
-          simp only
-          split <;> split <;> omega
+        · cases e
+        · split at e
+          · exact ih _ _ (by simp) e
+          · refine ih _ _ ?_ e
+            simp only
+            split <;> split <;> omega
 
 theorem classify_diff_nonneg {addrs loc : List Str} {f : Feature} (h : classify addrs loc = some f) :
     0 ≤ f.portsDifference := by
@@ -231,9 +233,8 @@ theorem classify_diff_nonneg {addrs loc : List Str} {f : Feature} (h : classify 
     · next st hst =>
       have hmm := classifyLoop_minmax loc addrs {} st (by simp) hst
       cases h
-      simp only
+      simp only [featureOf]
       split <;> omega
-
 
 end NatHole
 end Frp
